@@ -43,6 +43,7 @@ func init() {
 			ruleChannelIdentity(c, "C17.4", "C17.5")
 			ruleMetadataAccumulation(c, "C17.6")
 			rulePlumbing(c, "C17.7", "metadata")
+			ruleAccessorsOwnKeyOnly(c, "C17.8")
 		},
 		Explain:    "Static necessary conditions of identity propagation: the handler context's derivation chain (carrier context -> WithValue(incoming tunnel metadata) -> WithCancel -> NewIncomingContext(request metadata) -> WithTimeout|WithCancel -> server transport stream) with nothing else replacing it; each context key stored and read with matching types; the metadata accessors return Copy() of the value under their own key; the client stream context and the WithTunnelChannel option receive the channel the stream is created on, the pooled channel passing everything through; all four opening paths capture the opening metadata from the carrier's context.",
 		Assume:     []string{"metadata.MD.Copy copies the map and its value slices"},
